@@ -163,17 +163,31 @@ func gen(f vh.Flags, r *vrand.R, emit func(In)) {
 			emit(in)
 		}
 	case "c14":
-		n := f.N(14, 400)
+		n := f.N(20, 500)
 		for k := 0; k < n; k++ {
 			nids := r.Range(3, 6)
 			var ver int64
-			in := In{Mode: mode, NIDs: nids, Layout: sw.Layout{Config: "scorch-disk", Opts: r.Intn(5), Unsafe: r.Chance(1, 3), Keep: r.Range(0, 2)}}
-			as := genActions(r, nids, r.Range(6, 16), &ver, []int{0, 300, 3000}, 4)
-			// copies started at random positions of the workload (they run concurrently with what follows)
+			in := In{Mode: mode, NIDs: nids, Layout: sw.Layout{Config: "scorch-disk", Opts: r.Intn(5), Unsafe: r.Chance(2, 3), Keep: r.Range(0, 2)}}
+			heavy := k%2 == 0
+			fm := 4
+			if heavy {
+				fm = 2 // merges, persists and purges all the time
+				in.Layout.Keep = 1
+			}
+			as := genActions(r, nids, r.Range(8, 20), &ver, []int{0, 300, 3000}, fm)
+			// copies started at random positions of the workload; they run concurrently with what
+			// follows and with each other (each pauses before every file it writes)
 			nc := r.Range(1, 3)
+			if heavy {
+				nc = r.Range(2, 3)
+			}
 			for c := 0; c < nc; c++ {
-				pos := r.Intn(len(as) + 1)
-				as = append(as[:pos], append([]Action{{Kind: "copy", Dest: fmt.Sprintf("copy%d", c), US: vrand.Pick(r, []int{0, 2000, 8000, 20000})}}, as[pos:]...)...)
+				pos := r.Intn(len(as)/2 + 1)
+				us := vrand.Pick(r, []int{0, 2000, 8000, 20000})
+				if heavy {
+					us = vrand.Pick(r, []int{8000, 20000, 50000})
+				}
+				as = append(as[:pos], append([]Action{{Kind: "copy", Dest: fmt.Sprintf("copy%d", c), US: us}}, as[pos:]...)...)
 			}
 			as = append(as, Action{Kind: "sleep", US: 10000})
 			in.Sessions = []Session{{Actions: as}, {}}
@@ -443,6 +457,16 @@ func childMain(specJSON string) {
 			// wait until background work has gone quiet, then list the directory; the listing only
 			// counts if nothing happened for a while before AND after it was taken
 			bg.Wait()
+			if spec.Session.Sampler {
+				// copies and held readers are finished: one more (empty, tagged) batch makes the
+				// persister run another round, and with it the purger, before the directory is judged
+				b, seq, err := tg.Build(idx, nil, true)
+				if err == nil {
+					if err = idx.Batch(b); err == nil && !spec.Layout.Unsafe {
+						note(sw.Note("ack", uint64(seq)))
+					}
+				}
+			}
 			idleFor := func() time.Duration {
 				mu.Lock()
 				defer mu.Unlock()
@@ -586,6 +610,11 @@ func garble(storeDir string, r *vrand.R) (int, error) {
 
 func mirrorTags(tg *sw.Tagger, s Session) {
 	for _, a := range s.Actions {
+		if a.Kind == "settle" && s.Sampler {
+			tg.Seq++ // the empty batch that triggers a last persister / purger round
+			tg.Vers[tg.Seq] = map[string]int64{}
+			continue
+		}
 		if a.Kind != "batch" {
 			continue
 		}
